@@ -51,6 +51,10 @@ func merge(ms ...map[string]string) map[string]string {
 }
 
 func checkC08(c *Ctx) {
+	for _, p := range []string{"cue/format", "internal/pretty"} {
+		c.checkCounterBalance("layout.nesting-counter-balanced", p, nil)
+	}
+	c.expect("layout.nesting-counter-balanced", 5)
 	predecl := map[string]string{"predeclaredNode": "internal sentinel stored in Ident.Node, never part of a syntax tree"}
 	funcExc := "produced only by the parser's ParseFuncs mode (wasm extern signatures), never by format.Source / cue fmt"
 	fallback := "held in Comprehension.Fallback, not in Comprehension.Clauses; printed where the comprehension is printed (field coverage checks Comprehension.Fallback)"
